@@ -489,6 +489,65 @@ def tx_strategy(tier):
     return st.fixed_dictionaries({"tx": txgen.transactions()})
 
 
+# ------------------------------------------------------------------ byte fuzzing
+
+FUZZ_SEEDS = [
+    # the block-170 transaction (legacy) and a BIP143 example (segwit), both from public documentation
+    "0100000001c997a5e56e104102fa209c6a852dd90660a20b2d9c352423edce25857fcd3704000000004847304402204e45e1"
+    "6932b8af514961a1d3a1a25fdf3f4f7732e9d624c6c61548ab5fb8cd410220181522ec8eca07de4860a4acdd12909d831cc5"
+    "6cbbac4622082221a8768d1d0901ffffffff0200ca9a3b00000000434104ae1a62fe09c5f51b13905f07f06b99a2f7159b22"
+    "25f374cd378d71302fa28414e7aab37397f554a7df5f142c21c1b7303b8a0626f1baded5c72a704f7e6cd84cac00286bee00"
+    "00000043410411db93e1dcdb8a016b49840f8c53bc1eb68a382e97b1482ecad7b148a6909a5cb2e0eaddfb84ccf9744464f8"
+    "2e160bfa9b8b64f9d4c03f999b8643f656b412a3ac00000000",
+    "01000000000102fff7f7881a8099afa6940d42d1e7f6362bec38171ea3edf433541db4e4ad969f00000000494830450221008b"
+    "9d1dc26ba6a9cb62127b02742fa9d754cd3bebf337f7a55d114c8e5cdd30be022040529b194ba3f9281a99f2b1c0a19c0489"
+    "bc22ede944ccf4ecbab4cc618ef3ed01eeffffffef51e1b804cc89d182d279655c3aa89e815b1b309fe287d9b2b55d57b90e"
+    "c68a0100000000ffffffff02202cb206000000001976a9148280b37df378db99f66f85c95a783a76ac7a6d5988ac9093510d"
+    "000000001976a9143bde42dbee7e4dbe6a21b2d50ce2f0167faa815988ac000247304402203609e17b84f6a7d30c80bfa610"
+    "b5b4542f32a8a0d5447a12fb1366d7f01cc44a0220573a954c4518331561406f90300e8f3358f51928d43c212a8caed02de6"
+    "7eebee0121025476c2e83188368da1ff3e292e7acafcdb3566bb0ad253f62fc70f07aeee635711000000",
+]
+
+
+def fuzz_seeds(tier):
+    out = [bytes.fromhex(h) for h in FUZZ_SEEDS]
+    out.append(txser.serialize({"version": 2, "segwit": False, "locktime": 0, "ins": [
+        {"prev_tx": bytes(32), "prev_index": 0, "script": [b"\x01" * 75, 0x51], "sequence": 0, "witness": []}],
+        "outs": [{"amount": 1, "script": [b"\x02" * 76, b"\x03" * 256]}]}))
+    return out
+
+
+def check_fuzz_parse(case, ctx):
+    """arbitrary bytes: whatever Tx.parse accepts must re-serialise to a fixpoint of parse/serialise,
+    keep its id across that round trip and consume no more than the input"""
+    data = case["data"]
+    s = BytesIO(data)
+    st_, t = attempt(Tx.parse, s)
+    if st_ == "exc":
+        ctx.label("rejected")
+        return
+    ctx.label("parsed")
+    if len(t.tx_ins) == 0:
+        # only reachable through a non-canonical varint (fd0000): a 0-input transaction has no
+        # unambiguous encoding (its bytes collide with the BIP144 marker) and is outside the property
+        ctx.label("zero_inputs_out_of_domain")
+        return
+    st_, out = attempt(t.serialize)
+    if st_ == "exc":
+        # accepted by the parser but not serialisable: only allowed for pushes > 520 bytes (out of domain)
+        require("too long" in str(out), "fuzz/parsed_tx_cannot_be_serialised", f"{type(out).__name__}: {out}")
+        ctx.label("oversize_push")
+        return
+    ctx.nontrivial(len(t.tx_ins) > 0)
+    t2 = must(Tx.parse, "fuzz/reparse_of_own_serialisation", BytesIO(out))
+    out2 = must(t2.serialize, "fuzz/reserialise")
+    require(out2 == out, "fuzz/serialisation_is_not_a_fixpoint", f"{data.hex()[:200]}")
+    require(t2.id() == t.id(), "fuzz/id_changes_across_roundtrip")
+    require(t.id() == txser.sha256d(t.serialize_legacy())[::-1].hex(), "fuzz/id_is_not_hash_of_stripped")
+    if out == data[: len(out)] and s.tell() == len(out):
+        ctx.label("canonical_input")
+
+
 PUSH_CLASSES = [f"push{n}" for n in (74, 75, 76, 77, 255, 256, 257, 519, 520)]
 SUBS = [
     Sub("bytes_roundtrip", check_bytes, strategy=tx_strategy,
@@ -502,6 +561,11 @@ SUBS = [
     Sub("txid_metamorphic", check_meta, strategy=meta_strategy,
         budget={"quick": 6000, "thorough": 200000},
         required=["field:" + f for f in NONWIT_FIELDS] + ["witness_change"]),
+    Sub("fuzz_parse_fixpoint", check_fuzz_parse, kind="fuzz", seeds=fuzz_seeds, max_len=2048,
+        budget={"quick": 6000, "thorough": 1600000}, required=["parsed", "rejected"],
+        nontrivial_rule="input accepted by Tx.parse with at least one input",
+        doc="quick: Hypothesis byte-level mutations of seed transactions; thorough: atheris (libFuzzer) "
+            "coverage-guided campaign, oracle inside the target"),
     Sub("object_history", check_objhist, strategy=objhist_strategy, stateful=True,
         budget={"quick": 8000, "thorough": 200000},
         required=["edit:" + e for e in HIST_EDITS] + ["query_edit_query"],
